@@ -592,7 +592,13 @@ func (b *builder) callback() M {
 	if b.chance(2, "cbbody") {
 		op["requestBody"] = b.requestBody()
 	}
-	return M{"{$request.body#/url}": M{"post": op}}
+	pi := M{"post": op}
+	if b.chance(2, "cbpiparams") {
+		// parameters of the callback's path item itself, and of its operation
+		pi["parameters"] = []any{M{"name": "cbq", "in": "query", "schema": M{"type": "string"}}}
+		op["parameters"] = []any{M{"name": "cbh", "in": "header", "schema": M{"type": "integer"}}}
+	}
+	return M{"{$request.body#/url}": pi}
 }
 
 func (b *builder) securitySchemes() {
